@@ -26,7 +26,7 @@ RULE = ("G-DAG pipelines (N<=2 all, N=3 chain/diamond/fan family; decorated with
         "x cache type {simple, lru, hybrid, disk} x histories up to length L over the alphabet {call(output, cut in arg_combinations, values in {1,2} per name, and the same with each defaulted root argument omitted, full_output F/T), "
         "update_defaults, update_bound, replace(function with another body)}; every step is checked against the uncached twin and against the documented root-argument-key "
         "cache model. quick: L=2 without mutations, and L=3 for the default/bound-decorated N=2 pipelines where the third step directly follows a mutation "
-        "(call; mutation; call); thorough: L=3 everywhere. Map part: cached vs uncached map with repeated input values (also with DIFFERENT values of EQUAL Python hash: -1/-2, 0/2**61-1; and with every user function carrying the same __name__), sequential and deferred executor; three maps of a cached function with map-scope resources delivered through resources_variable; two pipelines with the same names but other function bodies built one after the other with default cache settings (or one shared cache_kwargs dict), all four cache types; the same list / dict / ndarray object passed twice with an in-place change in between (pipeline(), run, map)")
+        "(call; mutation; call); thorough: L=3 everywhere. Map part: cached vs uncached map with repeated input values (also with DIFFERENT values of EQUAL Python hash: -1/-2, 0/2**61-1; and with every user function carrying the same __name__), sequential and deferred executor; three maps of a cached function with map-scope resources delivered through resources_variable; two pipelines with the same names but other function bodies built one after the other with default cache settings (or one shared cache_kwargs dict), all four cache types; a used pipeline copied, the copy given another function body by replace(), both called with equal arguments; the same list / dict / ndarray object passed twice with an in-place change in between (pipeline(), run, map)")
 ASSUMPTIONS = ["a cached pipeline and its uncached twin are rebuilt from the same spec for every path (no shared state)",
                "the documented key model (key = output name + values of the ROOT arguments) is used only to CLASSIFY a mismatch as the known cache-key design finding; the verdict comes from the uncached twin",
                "HybridCache durations are virtual (time.perf_counter/monotonic patched to +1.0 per read inside pipefunc modules)",
@@ -674,6 +674,8 @@ def plan(tier, seed):
         for spec in spec_family("N3-all"):
             units.append(("N3-all-depth2-simple", ("bfs", {"spec": spec, "cached": [True] * 3, "cache": "simple"}, 2, False)))
     for ct in ("simple", "lru", "hybrid", "disk"):
+        units.append(("two-pipelines-same-names", ("copydiv", {"cache": ct})))
+    for ct in ("simple", "lru", "hybrid", "disk"):
         for kwm in ("default", "one-dict"):
             units.append(("two-pipelines-same-names", ("twopipes", {"cache": ct, "kwargs": kwm})))
     for ct in ("simple", "lru", "hybrid", "disk"):
@@ -733,6 +735,43 @@ def two_pipelines_case(cfg):
                     p.cache.clear()
     except Exception as e:  # noqa: BLE001
         out.append((findings.exc_sig(e, stage="two-pipelines", cache=cfg["cache"]), f"two pipelines with default cache settings raised {type(e).__name__}: {str(e)[:120]}"))
+    return out
+
+
+def copy_diverges_case(cfg):
+    """p is used; q = p.copy() gets another function body (replace); both are then called with equal arguments: a copy has a
+    cache of its own (the key - output name and root-argument values - does not identify the function bodies)"""
+    _vclock()
+    c03._install_one_manager()
+    spec_a = {"funcs": [{"name": "f0", "params": ["x"], "outs": ["o0"]}, {"name": "f1", "params": ["o0", "y"], "outs": ["o1"]}]}
+    spec_b = copy.deepcopy(spec_a)
+    spec_b["funcs"][1]["tag"] = "h1"
+    folder = None
+    out = []
+    try:
+        # (no cache_dir for the disk cache: a directory that the caller names explicitly is shared by every pipeline given it)
+        kw = {"lru_shared": False} if cfg["cache"] == "disk" else ({"shared": False} if cfg["cache"] in ("lru", "hybrid") else {})
+        with warnings.catch_warnings(), contextlib.redirect_stdout(io.StringIO()):
+            warnings.simplefilter("ignore")
+            p = gen_dag.build(spec_a, cache=True, cache_type=cfg["cache"], cache_kwargs=kw)
+            args = {"x": "1", "y": "2"}
+            seq = [("original", p, spec_a)]
+            p("o1", **args)
+            q = p.copy()
+            q.replace(gen_dag.build_funcs(spec_b, cache=True)[1])
+            seq += [("copy after replace", q, spec_b), ("original again", p, spec_a)]
+            for label, pl, sp in seq:
+                got = pl("o1", **args)
+                want = gen_dag.ref_eval(sp, "o1", args).value
+                if terms.T(got) != terms.T(want):
+                    out.append(({"kind": "value-mismatch", "stage": "copy-diverges", "cache": cfg["cache"]},
+                                f"{label} (cache_type={cfg['cache']}): o1 = {terms.T(got)}, uncached {terms.T(want)}"))
+                    break
+    except Exception as e:  # noqa: BLE001
+        out.append((findings.exc_sig(e, stage="copy-diverges", cache=cfg["cache"]), f"copy-then-replace raised {type(e).__name__}: {str(e)[:120]}"))
+    finally:
+        if folder:
+            shutil.rmtree(folder, ignore_errors=True)
     return out
 
 
@@ -839,6 +878,15 @@ def run_unit(unit):
         acc.stratum("two-pipelines-same-names")
         for sig, text in two_pipelines_case(cfg):
             acc.violation(sig, {"cfg": cfg, "twopipes": True}, text)
+    elif unit[0] == "copydiv":
+        _, cfg = unit
+        acc.case(hash(("copydiv", str(cfg))))
+        acc.states += 3
+        acc.transitions += 3
+        acc.traces += 1
+        acc.stratum("copy-then-replace")
+        for sig, text in copy_diverges_case(cfg):
+            acc.violation(sig, {"cfg": cfg, "copydiv": True}, text)
     elif unit[0] == "mutarg":
         _, cfg = unit
         acc.case(hash(("mutarg", str(cfg))))
@@ -906,6 +954,8 @@ def replay(art):
         return [s for s, _ in map_case_deferred(art["cfg"], explore.Chooser(art["choices"]))]
     if art.get("twopipes"):
         return [s for s, _ in two_pipelines_case(art["cfg"])]
+    if art.get("copydiv"):
+        return [s for s, _ in copy_diverges_case(art["cfg"])]
     if art.get("mutarg"):
         return [s for s, _ in mutated_arg_case(art["cfg"])]
     if art.get("mapres"):
